@@ -4,7 +4,10 @@
 use crate::Sodg;
 use anyhow::{Context, Result};
 use itertools::Itertools;
+#[cfg(not(feature = "verif"))]
 use std::collections::HashSet;
+#[cfg(feature = "verif")]
+use crate::verif::collections::HashSet;
 
 impl<const N: usize> Sodg<N> {
     /// Find an object by the provided locator and print its tree
